@@ -213,6 +213,8 @@ def e2e_cases():
         for lpos in (0, ncols):
             for mb in (12, 24):
                 out.append({'kind': 'e2e', 'ncols': ncols, 'label_pos': lpos, 'minibatch_size': mb})
+                if ncols <= 3:
+                    out.append({'kind': 'e2e', 'ncols': ncols, 'label_pos': lpos, 'minibatch_size': mb, 'interaction_order': 2})
     return out
 
 
@@ -241,7 +243,7 @@ def judge_e2e(case):
     from mc import pipeline
     text, cols = e2e_text(case['ncols'], case['label_pos'])
     ok, obs = safe(pipeline.run_task, text, dict(heuristic='MI-numba-3mr', target_ranking_only='False', minibatch_size=case['minibatch_size'], subsampling=1,
-                                                  include_cardinality_in_feature_names='False'))
+                                                  include_cardinality_in_feature_names='False', interaction_order=case.get('interaction_order', 1)))
     if not ok:
         return [f'ranking task raised {obs}']
     mr, pw = obs['mrmr'], obs['pairwise']
@@ -250,6 +252,10 @@ def judge_e2e(case):
     feats = [r[0] for r in mr[1:]]
     ranks = [int(r[1]) for r in mr[1:]]
     fails = []
+    # with interaction_order 2 the ' AND ' features are features as well; relation (' AND_REL ') columns are not
+    cols = sorted({x for r in pw[1:] for x in r[:2] if x != 'label' and ' AND_REL ' not in x})
+    if case.get('interaction_order', 1) == 1 and cols != sorted(e2e_text(case['ncols'], case['label_pos'])[1]):
+        return [f'pairwise_ranks.tsv mentions features {cols}']
     if sorted(feats) != sorted(cols):
         return [f'3mr_ranks.tsv lists {feats}, the non-label features are {cols}']
     if ranks != list(range(1, len(cols) + 1)):
